@@ -64,7 +64,7 @@ def _replay_items(prop_id: str):
                 items.append({"clause": d["clause"], "case": d["case"], "src": f"corpus/{prop_id}/{fn}"})
     for e in findings.load(prop_id):
         m = e.get("minimal")
-        if m:
+        if m and e["property"] == prop_id:  # the minimal case is in its own property's format
             items.append({"clause": m["clause"], "case": m["case"], "src": f"known_findings:{e['id']}"})
     return items
 
